@@ -206,13 +206,36 @@ impl<'a> Sess<'a> {
         *ps += 1;
         let ps = *ps;
         self.global_serial += 1;
-        let rec = unique_rec(
+        let mut rec = unique_rec(
             p.ty,
             p.index,
             ps,
             self.global_serial,
             flags_extra ^ (ps as u8),
         );
+        // octet strings of 90..121 octets now and then: two of them fill a 249-octet fragment, so that event series of
+        // several fragments occur with the handful of events a history holds
+        if p.ty == 7 && flags_extra & 0x18 == 0x18 {
+            let len = 90 + (flags_extra & 0x07) as usize * 4 + (ps as usize % 4);
+            while rec.bytes.len() < len {
+                rec.bytes.push((rec.bytes.len() as u8).wrapping_mul(7) ^ (ps as u8));
+            }
+            label(&mut self.f, "long_octet_string_event");
+        }
+        // event times are what the application says they are: not necessarily increasing (a late report of an older
+        // change). One update in four carries an earlier time, by up to 63 ms or by up to ~95 s (below and above the 16-bit
+        // span of a relative-time variation)
+        if let Some((t, sync)) = rec.time {
+            let back = match flags_extra & 0xC0 {
+                0xC0 => (flags_extra & 0x3F) as u64 * 1500,
+                0x80 if flags_extra & 0x20 != 0 => (flags_extra & 0x1F) as u64 + 1,
+                _ => 0,
+            };
+            if back > 0 {
+                rec.time = Some((t.saturating_sub(back), sync));
+                label(&mut self.f, "event_time_earlier_than_previous");
+            }
+        }
         let info = self
             .rig
             .db(|db| update_point(db, &rec, UpdateOptions::detect_event()));
